@@ -291,6 +291,11 @@ def check(P, R):
             ztests.append(n)
     t, neg = None, None
     ok = bool(ztests) and any(g.edge_dominates(z, 'true', g.exit) for z in ztests)
+    if not ok and ztests:
+        # the zero-size branch may raise a flag that ends the outer loop (`while not last_chunk_seen`): path-sensitive dominance
+        from ..paths import Explorer
+        X = Explorer(f, P)
+        ok = any(X.edge_dominates(z, 'true', g.exit) for z in ztests)
     R.ob('C05.c', f, ztests[0].ast if ztests else f.node, ok,
          text='normal end of the decoder is dominated by `<parsed size> == 0`',
          detail='' if ok else 'the decoder can end normally without having seen the zero-size chunk',
@@ -448,6 +453,6 @@ def check_raise_and_body(P, R, rid):
     # chunked flag forwarded
     for c in calls:
         kws = {k.arg: k.value for k in c.keywords}
-        ok = 'chunked' in kws and src(kws['chunked']) == 'self.chunked'
+        ok = 'chunked' in kws and T.xsrc(fb, kws['chunked']) == 'self.chunked'
         R.ob(rid, fb, c, ok, text='chunked=self.chunked', detail='' if ok else 'the chunked flag is not forwarded to the reader',
              nontrivial=False)
